@@ -7,6 +7,7 @@ pub mod c04;
 pub mod c06;
 pub mod c07;
 pub mod c08;
+pub mod c09;
 
 pub fn dispatch(cfg: &Cfg) -> Option<Outcome> {
     Some(match cfg.prop.as_str() {
@@ -17,6 +18,7 @@ pub fn dispatch(cfg: &Cfg) -> Option<Outcome> {
         "C06" => c06::run(cfg),
         "C07" => c07::run(cfg),
         "C08" => c08::run(cfg),
+        "C09" => c09::run(cfg),
         _ => return None,
     })
 }
